@@ -23,6 +23,9 @@ def local_names(prog):
     names = set()
     for f in prog["funs"]:
         names.update(f["ps"])
+    for m in prog.get("meths", []):
+        names.update(m["ps"])
+        names.add(m["this"])
     for n in rf.nodes(prog, lambda n: n["k"] in ("letd", "ford")):
         names.update(n["ns"])
     for n in rf.nodes(prog, lambda n: n["k"] in ("let", "for", "lam", "match")):
@@ -69,7 +72,7 @@ def run(tier, seed):
     rnd = random.Random(seed * 67 + 19)
     import gen_prog
     import refrun
-    progs, srcs = refrun.gen_programs(seed + 191, 120 if tier == "quick" else 1200, 5, err_rate=0.1, features={"ext": True})
+    progs, srcs = refrun.gen_programs(seed + 191, 120 if tier == "quick" else 1200, 5, err_rate=0.1, features={"ext": True, "ext2": "half"})
     for p in progs:
         if p["id"] % 4 == 0:
             add_scope_shapes(p)
